@@ -60,4 +60,19 @@ PROPERTIES = {
         explanation="accumulation of used enums / inputs in the package orchestration and in InputTypesGenerator; closure (dfs) by bounded stand-in",
         assumptions=["textual identity of retained definitions also depends on autoflake/isort/black (assumed)"],
     ),
+    "C10": dict(
+        modules=["contracts.c10_order"],
+        ordscan=["ariadne_codegen.client_generators.fragments", "ariadne_codegen.client_generators.result_types",
+                 "ariadne_codegen.client_generators.package", "ariadne_codegen.schema", "ariadne_codegen.contrib.client_forward_refs",
+                 "ariadne_codegen.contrib.shorter_results", "ariadne_codegen.contrib.extract_operations",
+                 "ariadne_codegen.client_generators.comments", "ariadne_codegen.client_generators.input_types",
+                 "ariadne_codegen.client_generators.enums", "ariadne_codegen.client_generators.init_file",
+                 "ariadne_codegen.client_generators.client", "ariadne_codegen.client_generators.custom_fields",
+                 "ariadne_codegen.client_generators.custom_generator_utils", "ariadne_codegen.client_generators.arguments",
+                 "ariadne_codegen.graphql_schema_generators.schema", "ariadne_codegen.graphql_schema_generators.named_types",
+                 "ariadne_codegen.graphql_schema_generators.fields", "ariadne_codegen.graphql_schema_generators.directives"],
+        ord_replay=_bounded.lazy0("contracts.e2e_determinism", "replay_generation_hash_seeds"),
+        explanation="order-dependence obligations (set iteration must not reach emitted text) on the functions that handle sets",
+        assumptions=["isort/black determinism; equality across two processes beyond order-independence is outside one call's contract"],
+    ),
 }
